@@ -10,7 +10,8 @@ CLAIM = dict(
          "ended stream) and retrieve (fault after g entries); TLC checks that a hit is always complete and enumerates every scenario for both cache kinds. Each "
          "scenario runs against the real httpCache (in-process HTTP server that commits a PUT body only on a clean end of request and can drop connections "
          "mid-body) and the real cmdCache (store `cat > tmp && mv`, retrieve `cat`; failing commands), with the read fault produced by a fault hook in the tar "
-         "producer or by a missing output, in flat and directory-shaped output sets; a reported hit must restore exactly the stored files.",
+         "producer or by a missing output, in flat and directory-shaped output sets; a reported hit must restore exactly the stored files, also when unpacking over the previous version's outputs (stale directory entries, a first output "
+         "that is a symlink or a hard link to a file elsewhere, which must stay intact).",
     note="Transport fault positions are entry-granular, not every byte offset; the HTTP server and the shell commands are the harness's (the documented atomic "
          "forms); retrieve commands that exit 0 after truncating their output are outside the statement.",
     technique="TLA+ spec StreamCache.tla model-checked with TLC; every enumerated fault scenario executed against the real HTTP and command caches")
@@ -25,6 +26,8 @@ def run(ctx):
     ctx.extra["flaw_http_closes_normally_model_counterexample"] = fl.invariant
     fl = vlib.tlc(ctx, "StreamCache", "MC_StreamCache_flaw2.cfg", allow_violation=True)
     ctx.extra["flaw_merges_stale_dir_model_counterexample"] = fl.invariant
+    fl = vlib.tlc(ctx, "StreamCache", "MC_StreamCache_flaw3.cfg", allow_violation=True)
+    ctx.extra["flaw_writes_through_links_model_counterexample"] = fl.invariant
     r = vlib.tlc(ctx, "StreamCache", "GEN_StreamCache.cfg" if ctx.quick else "GEN_StreamCache_4.cfg")
     if ctx.replay_only is not None:
         cases = [d["case"] for d in ctx.replay_only]
@@ -36,7 +39,11 @@ def run(ctx):
                 for shape in (["flat", "dir"] if c["files"] >= 2 else ["flat"]):
                     if st == "missing" and shape == "dir" and c["readFaultAt"] > 1:
                         continue   # a file missing INSIDE a directory output is not a fault: the directory's listing is the stored set
-                    cases.append(dict(c, faultStyle=st, shape=shape))
+                    if c.get("staleLink"):
+                        cases.append(dict(c, faultStyle=st, shape=shape, staleStyle="symlink"))
+                        cases.append(dict(c, faultStyle=st, shape=shape, staleStyle="hardlink"))
+                    else:
+                        cases.append(dict(c, faultStyle=st, shape=shape, staleStyle=""))
     for i, c in enumerate(cases):
         c["id"] = i
     obs = vlib.run_vh(ctx, "streamcache", cases, timeout=3000)
@@ -48,7 +55,9 @@ def run(ctx):
         ctx.count(json.dumps({k: v for k, v in c.items() if k not in ("id", "expect", "expectCommitted")}), nontrivial=nt,
                   sample=dict(scenario=c, observed=o) if nt else None)
         ctx.traces_validated += 1
-        if o["hit"] and sorted(o["restored"]) != sorted(o["want"]):
+        if c.get("staleLink") and (o.get("victim") != "victim" or (o["hit"] and "f1 symlink" in o["restored"])):
+            ctx.violation("C13 retrieval-writes-through-stale-%s-output kind=%s" % (c["staleStyle"], c["kind"]), dict(case=c, observed=o))
+        elif o["hit"] and sorted(o["restored"]) != sorted(o["want"]):
             extra = sorted(set(o["restored"]) - set(o["want"]))
             if c.get("stale") and extra and not (set(o["want"]) - set(o["restored"])) and all(e.split("/")[-1].startswith("only-in-previous") for e in extra):
                 ctx.violation("C13 hit-leaves-stale-entry-in-directory-output kind=%s" % c["kind"], dict(case=c, observed=o))
